@@ -227,6 +227,12 @@ func checkC25(r *sim.Run, b *chainBlock, prior, post *types.State) {
 		priorPeaks = append(priorPeaks, (*types.OpaqueHash)(p))
 	}
 	peaks := mmrAppend(priorPeaks, wellBalanced(leaves))
+	if len(b.block.Extrinsic.Guarantees) > 0 {
+		r.Count("probe:block_with_reported_packages", 1)
+	}
+	if len(post.Theta) >= 2 {
+		r.Count("probe:block_with_two_or_more_accumulation_outputs", 1)
+	}
 	var reported []types.ReportedWorkPackage
 	for _, g := range b.block.Extrinsic.Guarantees {
 		reported = append(reported, types.ReportedWorkPackage{Hash: types.WorkReportHash(g.Report.PackageSpec.Hash), ExportsRoot: g.Report.PackageSpec.ExportsRoot})
@@ -341,9 +347,12 @@ func checkC34(r *sim.Run, b *chainBlock, prior, post *types.State) {
 			curr[a.ValidatorIndex].Assurances++
 		}
 	}
-	guarantors := refGuarantors(b, prior, post)
-	for idx := range guarantors {
-		curr[idx].Guarantees++
+	reporters := refGuarantorKeys(b, prior, post)
+	for idx, v := range post.Kappa {
+		if idx < len(curr) && reporters[v.Ed25519] {
+			curr[idx].Guarantees++
+			r.Count("probe:guarantor_credited", 1)
+		}
 	}
 	if !reflect.DeepEqual(normVS(post.Pi.ValsCurr), normVS(curr)) {
 		r.Violate("C34", "validators", "validator-current-records-wrong", "block depth %d slot %d author %d (tickets %d, preimages %d): current validator records %v, reference %v", b.depth, b.block.Header.Slot, ai, len(ext.Tickets), len(ext.Preimages), post.Pi.ValsCurr, curr)
@@ -353,7 +362,7 @@ func checkC34(r *sim.Run, b *chainBlock, prior, post *types.State) {
 		r.Violate("C34", "validators", "validator-previous-records-wrong", "block depth %d slot %d (epoch %d->%d): previous-epoch validator records %v, reference %v", b.depth, b.block.Header.Slot, e, e2, post.Pi.ValsLast, last)
 		return
 	}
-	checkC34CoresServices(r, b, prior, post)
+	checkC34CoresServicesB(r, b, prior, post)
 }
 
 func normVS(v types.ValidatorsStatistics) string {
@@ -467,6 +476,13 @@ func checkC35(r *sim.Run, b *chainBlock, prior, post *types.State) {
 		r.Count("probe:offenders_added", int64(len(d.Culprits)+len(d.Faults)))
 	}
 	// judged bad or wonky reports leave pending availability
+	for _, a := range prior.Rho {
+		if a != nil {
+			if h := reportHash(&a.Report); bad[h] || wonky[h] {
+				r.Count("probe:judged_report_left_pending_availability", 1)
+			}
+		}
+	}
 	for c, a := range post.Rho {
 		if a == nil {
 			continue
@@ -497,21 +513,39 @@ func checkC31(r *sim.Run, b *chainBlock, prior, post *types.State) {
 		h := h256(p.Blob)
 		key := types.LookupMetaMapkey{Hash: h, Length: types.U32(len(p.Blob))}
 		pa, ok := prior.Delta[p.Requester]
-		ts, has := pa.LookupDict[key]
+		ts, has := rawLookup(b.parent.kvs, p.Requester, key) // raw: the parser attributes lookup entries only next to a stored preimage
 		_, stored := pa.PreimageLookup[h]
 		if !ok || !has || len(ts) != 0 || stored {
 			r.Violate("C31", "admission", "unsolicited-or-provided-preimage-accepted", "block depth %d was accepted with a preimage for service %d that was not solicited-and-unprovided (account=%v entry=%v slots=%v stored=%v)", b.depth, p.Requester, ok, has, ts, stored)
 			return
 		}
-		// accumulation in the same block may have touched the entry; in stage A nothing accumulates
+		// accumulation in the same block may touch a lookup entry; the generated service programs do not
 		qa := post.Delta[p.Requester]
-		got, has2 := qa.LookupDict[key]
+		got, has2 := rawLookup(b.kvs, p.Requester, key)
 		blob, stored2 := qa.PreimageLookup[h]
 		if !has2 || len(got) != 1 || got[0] != b.block.Header.Slot || !stored2 || !bytes.Equal(blob, p.Blob) {
 			r.Violate("C31", "integration", "accepted-preimage-not-stored-with-block-slot", "block depth %d slot %d: preimage of service %d: lookup entry %v (present=%v), blob stored=%v", b.depth, b.block.Header.Slot, p.Requester, got, has2, stored2)
 			return
 		}
 		r.Count("probe:preimage_integrated", 1)
+	}
+	// nothing else is stored: every new preimage of the posterior state was in the extrinsic
+	for sid, qa := range post.Delta {
+		for h := range qa.PreimageLookup {
+			if _, before := prior.Delta[sid].PreimageLookup[h]; before {
+				continue
+			}
+			found := false
+			for _, p := range ext {
+				if p.Requester == sid && h256(p.Blob) == h {
+					found = true
+				}
+			}
+			if !found {
+				r.Violate("C31", "integration", "preimage-stored-without-extrinsic-entry", "block depth %d: service %d gained preimage %x which the block's preimage extrinsic does not provide", b.depth, sid, h[:4])
+				return
+			}
+		}
 	}
 }
 
@@ -610,39 +644,8 @@ func checkTransition(r *sim.Run, ru *run, b *chainBlock) {
 	if r.Wants("C24") && !r.Violated() {
 		checkC24(r, b, prior, post)
 	}
-}
-
-// ---- stage A versions (no guarantees / assurances / accumulation in the generated blocks) --------
-
-func refGuarantors(b *chainBlock, prior, post *types.State) map[int]bool { return map[int]bool{} }
-
-func checkC34CoresServices(r *sim.Run, b *chainBlock, prior, post *types.State) {
-	if len(b.block.Extrinsic.Guarantees) > 0 || len(b.block.Extrinsic.Assurances) > 0 {
-		return
-	}
-	want := map[types.ServiceID]types.ServiceActivityRecord{}
-	for _, p := range b.block.Extrinsic.Preimages {
-		rec := want[p.Requester]
-		rec.ProvidedCount++
-		rec.ProvidedSize += types.U32(len(p.Blob))
-		want[p.Requester] = rec
-	}
-	for sid, rec := range post.Pi.Services {
-		if want[sid] != rec {
-			r.Violate("C34", "services", "service-record-wrong", "block depth %d: service %d record %+v, reference %+v (block has %d preimages, no reports)", b.depth, sid, rec, want[sid], len(b.block.Extrinsic.Preimages))
-			return
-		}
-	}
-	for sid, rec := range want {
-		if post.Pi.Services[sid] != rec {
-			r.Violate("C34", "services", "service-record-wrong", "block depth %d: service %d record %+v, reference %+v", b.depth, sid, post.Pi.Services[sid], rec)
-			return
-		}
-	}
-	for c, rec := range post.Pi.Cores {
-		if rec != (types.CoreActivityRecord{}) {
-			r.Violate("C34", "cores", "core-record-not-zero-without-work", "block depth %d: core %d record %+v although the block reports nothing and nothing became available", b.depth, c, rec)
-			return
-		}
+	if r.Wants("C21") && !r.Violated() {
+		checkC21(r, b, prior, post)
 	}
 }
+
